@@ -8,7 +8,6 @@ package main
 import (
 	"bytes"
 	"fmt"
-	"io"
 	"os"
 	"path/filepath"
 	"sort"
@@ -84,9 +83,18 @@ func renameCase(src string, keepNames, alphabet bool, st *renameStats, measureWf
 	}
 	o := &minjs.Minifier{KeepVarNames: keepNames}
 	minjs.VerifSetAlphabetVarNames(o, alphabet)
-	if err := minjs.VerifMinifyAST(o, io.Discard, ast); err != nil {
+	var written bytes.Buffer
+	if err := minjs.VerifMinifyAST(o, &written, ast); err != nil {
 		st.skipped++
 		return "", ""
+	}
+	// identifiers that occur in the written program: a scope counts as "dropped with its code" only when none of the names
+	// it declared is written
+	writtenIdents := map[string]bool{}
+	for _, t := range tokenize(written.String()) {
+		if t.k == tIdent {
+			writtenIdents[t.s] = true
+		}
 	}
 	// scopes may have been created / changed by the minifier (hoisting): collect again on the final AST
 	col2 := &scopeCollector{seen: map[*pjs.Scope]bool{}}
@@ -174,6 +182,10 @@ func renameCase(src string, keepNames, alphabet bool, st *renameStats, measureWf
 			unchanged := len(s.Declared) > 0
 			for _, v := range s.Declared {
 				if o, ok := orig[v]; !ok || o != string(v.Data) {
+					unchanged = false
+				} else if len(o) > 1 && writtenIdents[o] {
+					// the code of the scope is still there under its old (longer than one character) name: the scope was
+					// skipped by the renamer, not dropped
 					unchanged = false
 				}
 			}
